@@ -860,10 +860,10 @@ def inits(ctx):
             add("third3", track, "gp", 2, pool="empty", fresh=[0], triples="rot", addocc=1, **FULL)
             add("third3", track, "none", 2, pool="default", fresh=[0], triples="rot", addocc=1, **FULL)
     else:
-        for c in ("third7", "full7"):
-            for track in (True, False):
-                for stat in ("none", "gp", "all"):
-                    add(c, track, stat, 2, **(FULL if stat == "none" else {}))
+        for track in (True, False):
+            add("third7", track, "none", 2, **FULL)
+            add("third7", track, "all", 2)
+            add("full7", track, "gp", 2)
         for track in (True, False):
             add("third7", track, "mixed", 2)
             add("third7", track, "none", 1, pool="default", triples="all")
@@ -871,13 +871,13 @@ def inits(ctx):
             add("full7", track, "mid", 1, pool="empty", triples="all", **FULL)
         for track in (True, False):
             for stat in ("none", "gp", "top", "both", "mid", "all", "mixed"):
-                add("third3", track, stat, 3, triples="rot", addocc=1, **(FULL if stat in ("none", "gp") else {}))
+                add("third3", track, stat, 3 if stat in ("none", "gp", "all", "mixed") else 2, triples="rot", addocc=1, **(FULL if stat in ("none", "gp") else {}))
                 add("third3", track, stat, 2, pool="empty", triples="rot", addocc=1, **FULL)
                 add("third3", track, stat, 2, pool="default", triples="rot", addocc=1, **FULL)
             for stat in ("none", "gp", "mixed"):
                 add("full3", track, stat, 3, pool="empty", triples="rot", addocc=1, **FULL)
                 add("third4", track, stat, 2, addocc=1)
-        for track, stat, pool in ((True, "both", "empty"), (False, "gp", "filled")):
+        for track, stat, pool in ((True, "both", "empty"),):
             add("third3", track, stat, 4, pool=pool, fresh=[0], triples="rot", addocc=0, addout=0, pool_=1)
     for init, _d in out:  # 'pool' is the pool kind in add(); the alphabet bound is spelled pool_ there
         if "pool_" in init["alpha"]:
